@@ -120,17 +120,25 @@ impl JwsHeader {
 
   /// Returns `true` if none of the fields are set in both `self.custom` and `other.custom`.
   fn is_custom_disjoint(&self, other: &JwsHeader) -> bool {
-    match (&self.custom, &other.custom) {
-      (Some(self_custom), Some(other_custom)) => {
-        for self_key in self_custom.keys() {
-          if other_custom.contains_key(self_key) {
-            return false;
-          }
-        }
-        true
-      }
-      _ => true,
-    }
+    // A custom parameter must neither repeat a custom parameter of the other header
+    // nor shadow one of its declared parameters.
+    let clashes = |this: &JwsHeader, that: &JwsHeader| -> bool {
+      this
+        .custom
+        .as_ref()
+        .map(|custom| {
+          custom.keys().any(|key| {
+            that.has(key)
+              || that
+                .custom
+                .as_ref()
+                .map(|that_custom| that_custom.contains_key(key))
+                .unwrap_or(false)
+          })
+        })
+        .unwrap_or(false)
+    };
+    !clashes(self, other) && !clashes(other, self)
   }
 }
 
